@@ -121,7 +121,7 @@ def run(ctx, chk):
     else:
         chk.fail('C13.2', 'reset_divider', 'reset_divider stores %s' % [(s[2], fmt(s[3])) for s in stores], file, None)
     writers = sorted(set(w[0] for w in prog.field_stores(OWNER, 'cycle_count')))
-    allowed = {TM + 'new', TM + 'reset_divider', TM + 'run_cycles'}
+    allowed = families(prog, [TM + 'new', TM + 'reset_divider', TM + 'run_cycles'])
     if set(writers) <= allowed:
         chk.ok('C13.2', 'writers', sample={'cycle_count writers': writers})
     else:
@@ -157,12 +157,12 @@ def run(ctx, chk):
     else:
         chk.ok('C13.3', 'increment_counter', sample={'0xff': 'TIMA := TMA, request 0x04', 'else': 'TIMA += 1'})
     cw = sorted(set(w[0] for w in prog.field_stores(OWNER, 'counter')))
-    if set(cw) <= {TM + 'new', TM + 'set_counter', TM + 'increment_counter'}:
+    if set(cw) <= families(prog, [TM + 'new', TM + 'set_counter', TM + 'increment_counter']):
         chk.ok('C13.3', 'writers', sample={'TIMA writers': cw})
     else:
         chk.fail('C13.3', 'writers', 'TIMA is written in %s' % cw, file, None)
     ic = sorted(set(c[0] for c in prog.callers(TM + 'increment_counter')))
-    if ic == sorted([TM + 'run_cycles', TM + 'set_timer_control']):
+    if ic and set(ic) <= families(prog, [TM + 'run_cycles', TM + 'set_timer_control']):
         chk.ok('C13.3', 'callers', sample={'increment_counter callers': ic})
     else:
         chk.fail('C13.3', 'callers', 'increment_counter is called from %s' % ic, file, None)
@@ -322,6 +322,15 @@ def run(ctx, chk):
     else:
         chk.fail('C13.5', 'disabled-fast-path', 'the disabled fast path is not "cycle_count = (cycle_count + n) & 0xffff, '
                  'TIMA untouched, no request"', file, None)
+    # ---- rule 6: the request a TAC write produces reaches IF
+    chk.rule('C13.6', 'D', 'the interrupt request returned by Timer::set_timer_control (falling edge caused by a TAC write) is '
+             'merged into IF by IO::set_byte', floor=1)
+    res = register_write_requests_reach_if(facts, prog, [TM + 'set_timer_control'])
+    for cal, bad in res.items():
+        if bad:
+            chk.fail('C13.6', 'tac-write', '%s: %s' % (cal, bad), 'src/devices/io.rs', None)
+        else:
+            chk.ok('C13.6', 'tac-write', sample={'IO::set_byte': 'interrupt_flag |= timer.set_timer_control(value)'})
     chk.assumptions += ['exact DIV/TIMA values for a given history are runtime arithmetic and are not decided; rules 1-4 are '
                         'necessary conditions, rule 5 is the structural argument for batching invariance',
                         'u32 cycle counter does not overflow within one batch']
